@@ -13,7 +13,7 @@ env = dict(os.environ, NETCONAN_REPO=repo)
 props = [c["property_id"] for c in json.load(open(os.path.join(here, "MANIFEST.json")))["checks"]]
 subprocess.run(["/venv/bin/python", os.path.join(here, "tools", "setup.py")], env=env, cwd=here, capture_output=True)
 for name in sys.argv[1:]:
-    patch = os.path.join("/verif/seeded", name, "patch.diff")
+    patch = os.path.join(here, os.environ.get("SEEDED_DIR", "seeded"), name, "patch.diff")
     r = subprocess.run(["git", "-C", repo, "apply", patch], capture_output=True, text=True)
     if r.returncode != 0:
         print(name, "PATCH-FAILED", r.stderr[:200], flush=True)
